@@ -37,6 +37,13 @@ for i in ids:
         },
         "checks_run_against_it": checks,
     }
+    try:
+        for line in open(f"{ROOT}/missed_as_built.txt"):
+            if line.startswith(i + " "):
+                meta["as_built"] = line.strip()[len(i) + 1:]
+    except OSError:
+        pass
+    meta.setdefault("as_built", "caught by the check as it stood when the change was written")
     json.dump(meta, open(f"{out}/meta.json", "w"), indent=1)
     if os.path.exists(f"{out}/agent_meta.json"):
         os.remove(f"{out}/agent_meta.json")
